@@ -152,6 +152,34 @@ class NdIter(Stub):
             yield tuple((None if o is None else EA(o.a[lo:hi])) for o in self.ops)
 
 
+def native_generator(ck):
+    """real sampler on a shipped table, internal generator, a batch spanning three iterator chunks: with the global generator seeded, the
+    result equals the explicit-u result for the numbers the same seed produces (one fresh number per event, in order), and no two events
+    8192 apart share their random number"""
+    from nuspacesim.utils import cdf as CDF
+
+    try:
+        from nuspacesim.config import NssConfig
+        from nuspacesim.simulation.taus.taus import Taus
+
+        t = Taus(NssConfig())
+        sampler, ax_e, ax_b = CDF.grid_cdf_sampler(t.tau_cdf_grid), t.tau_cdf_grid["log_e_nu"], t.tau_cdf_grid["beta_rad"]
+        n = 2 * 8192 + 777
+        rng = np.random.default_rng(ck.seed + 40)
+        le = rng.uniform(float(ax_e[1]), float(ax_e[-2]), n)
+        be = rng.uniform(float(ax_b[1]), float(ax_b[-2]), n)
+        np.random.seed(ck.seed + 41)
+        z_gen = np.asarray(sampler(le.copy(), be.copy()), dtype=float)
+        np.random.seed(ck.seed + 41)
+        u = np.concatenate([np.random.uniform(0.0, 1.0, size=k) for k in (8192, 8192, 777)])
+        z_exp = np.asarray(sampler(le.copy(), be.copy(), u.copy()), dtype=float)
+        ok = z_gen.shape == z_exp.shape and np.array_equal(z_gen, z_exp, equal_nan=True)
+        j = int(np.argmax(z_gen != z_exp)) if not ok and z_gen.shape == z_exp.shape else 0
+        return {"violated": not ok, "input": {"events": n, "seed": ck.seed + 41, "table": "shipped default"}, "observed": {"first differing event": j, "generator path": float(z_gen[j]), "explicit u of the same seed": float(z_exp[j])}}
+    except Exception as ex:
+        return {"violated": None, "note": "native generator design failed: %r" % ex}
+
+
 def sampler_obligations(ck):
     from nuspacesim.utils import cdf as CDF
     from nuspacesim.utils.interp import vec_1d_interp
@@ -180,7 +208,25 @@ def sampler_obligations(ck):
         def __getitem__(self, k):
             return self.ax[k]
 
-    ov = {CDF.interpn: interpn, np.nditer: lambda interp, *a, **k: NdIter(*a, **k)}
+    import scipy.interpolate as _SI
+
+    class RGI(Stub):
+        """scipy.interpolate.RegularGridInterpolator by the same assumed contract as interpn (multilinear interpolation on the given axes,
+        range-checked unless bounds_error is switched off): an interpolator built once and evaluated per chunk is the same function"""
+
+        def __init__(self, points, values, method="linear", bounds_error=True, fill_value=float("nan"), **kw):
+            self.points, self.values = points, values
+            self.kw = dict(kw, method=method, bounds_error=bounds_error, fill_value=fill_value)
+
+        def __call__(self, xi, method=None, **kw):
+            if kw or not (isinstance(xi, (tuple, list)) and len(xi) == 2):
+                raise sym.Unsupported("RegularGridInterpolator evaluated with %s" % ("keywords %s" % sorted(kw) if kw else "a coordinate array (only a pair of per-event arrays is modelled)"))
+            k2 = dict(self.kw)
+            if method is not None:
+                k2["method"] = method
+            return interpn(None, self.points, self.values, tuple(xi), **k2)
+
+    ov = {CDF.interpn: interpn, _SI.RegularGridInterpolator: lambda interp, *a, **k: RGI(*a, **k), np.nditer: lambda interp, *a, **k: NdIter(*a, **k)}
     for nchunks, explicit in ((1, True), (1, False), (2, True), (2, False)):
         NdIter.nchunks = nchunks  # the batch of nb events in one chunk / spanning two chunks of the buffered iterator
         it = harness.make_interp(ov, max_paths=400)
@@ -223,13 +269,16 @@ def sampler_obligations(ck):
 
             # (how the draws are grouped -- one per chunk, or all before the loop -- is not part of the contract)
             okd = all(drawn(p) == nb and all(float(d["lo"]) == 0.0 and float(d["hi"]) == 1.0 for d in p.rng_draws) for p in paths if p.kind == "return")
-            ck.direct("%s/ghost.rng%s" % (qn, tag), okd and any(p.kind == "return" for p in paths), "post", "symbolic execution", clause="u=None draws exactly one fresh uniform(0,1) number per event of every chunk",
-                      note=str([[d.get("shape") for d in p.rng_draws] for p in paths][:3]), replay_out=None if okd else native_first(ck))
+            okd = okd and any(p.kind == "return" for p in paths)
+            natd = None if okd else native_generator(ck)
+            ck.direct("%s/ghost.rng%s" % (qn, tag), True if okd else (False if natd.get("violated") else None), "post", "symbolic execution", clause="u=None draws exactly one fresh uniform(0,1) number per event of every chunk",
+                      note=str([[d.get("shape") for d in p.rng_draws] for p in paths][:3]), replay_out=natd)
             continue
         rows = holder["rows"]
         bad = [p for p in paths if p.kind != "return" or not isinstance(p.result, EA) or p.result.shape != (nb,)]
-        ck.direct("%s/post.no_raise%s" % (qn, tag), not bad, "post", "path enumeration (%d feasible paths)" % len(paths), note="; ".join("%s %s" % (p.kind, p.exc) for p in bad[:2])[:200],
-                  clause="equal-shape inputs inside the rows' ranges: one value per event, no error", replay_out=None if not bad else native_first(ck))
+        natb = None if not bad else native_first(ck)
+        ck.direct("%s/post.no_raise%s" % (qn, tag), True if not bad else (False if natb.get("violated") else None), "post", "path enumeration (%d feasible paths)" % len(paths), note="; ".join("%s %s" % (p.kind, p.exc) for p in bad[:2])[:200],
+                  clause="equal-shape inputs inside the rows' ranges: one value per event, no error", replay_out=natb)
         for pi, p in enumerate(paths):
             if p in bad:
                 continue
@@ -249,9 +298,10 @@ def sampler_obligations(ck):
             return meth == "linear" and (be is True or (isinstance(be, (bool, np.bool_)) and bool(be))) and not kw
 
         okc = bool(calls) and all(c[1] == ("AX_E", "AX_B") and c[2] == "TABLE" and effective(c[4]) for c in calls)
-        ck.direct("%s/call.interpn%s" % (qn, "" if nchunks == 1 else "[%d-chunks]" % nchunks), okc, "pre", "symbolic-execution(call-site)", note=str([(c[1], c[4]) for c in calls])[:200],
+        natc = None if okc else native_first(ck)
+        ck.direct("%s/call.interpn%s" % (qn, "" if nchunks == 1 else "[%d-chunks]" % nchunks), True if okc else (False if natc.get("violated") else None), "pre", "symbolic-execution(call-site)", note=str([(c[1], c[4]) for c in calls])[:200],
                   clause="interpn is called on (log_e_nu, beta_rad) -- the first two axes of the table, in order -- with scipy's default bounds_error (out-of-range energies raise), rows along e_tau_frac",
-                  replay_out=None if okc else native_first(ck))
+                  replay_out=natc)
     NdIter.nchunks = 1
     # shape mismatch and empty batch
     it = harness.make_interp(ov)
